@@ -143,6 +143,12 @@ func concatAliasSource(r *rand.Rand) string {
 		fmt.Sprintf("nest := [[%d] []]\nn0 := nest[0]\nn1 := nest[1]\nnest[0] = nest[0] + [%d]\nn1x := nest[1] + [%d]\nprint nest n0 n1 n1x\n", v(), v(), v()),
 		fmt.Sprintf("s := [%d %d %d]\nt := s\ns = s + s\nprint s t\nt = [] + t\nt[0] = %d\nprint s t\n", v(), v(), v(), v()),
 		fmt.Sprintf("me:{}[]num\nme.e = []\nl1 := me.e + [%d]\nl2 := me.e + [%d]\nprint me l1 l2\n", v(), v()),
+		// an empty operand on either side: the result is still a fresh array, stores through it
+		// (or through the other operand afterwards) stay on their side
+		fmt.Sprintf("acc:[]num\nsrc2 := [%d %d]\nacc = acc + src2\nacc[0] = %d\nprint acc src2\nsrc2[1] = %d\nprint acc src2\n", v(), v(), v(), v()),
+		fmt.Sprintf("rows := [[%d %d]]\nflat:[]num\nfor row := range rows\n    flat = flat + row\nend\nflat[1] = %d\nprint rows flat\n", v(), v(), v()),
+		fmt.Sprintf("lft := [%d]\nnone:[]num\nres := lft + none\nres[0] = %d\nprint lft res none\nres2 := [] + lft\nlft[0] = %d\nprint lft res2\n", v(), v(), v()),
+		fmt.Sprintf("es:[]string\nwords := [\"a\" \"b\"]\nj1 := es + words\nj2 := es + words\nj1[0] = \"z%d\"\nprint words j1 j2 es\n", v()),
 	}
 	r.Shuffle(len(blocks), func(i, j int) { blocks[i], blocks[j] = blocks[j], blocks[i] })
 	for _, bl := range blocks[:5+r.Intn(len(blocks)-4)] {
